@@ -26,10 +26,25 @@ RatOf(n) == <<n, 1>>
 Zero == <<0, 1>>
 One  == <<1, 1>>
 
-\* Comparison by cross-multiplication (denominators are positive).
-Less(a, b) == a[1] * b[2] <  b[1] * a[2]
-Leq(a, b)  == a[1] * b[2] <= b[1] * a[2]
-Eq(a, b)   == a[1] * b[2] =  b[1] * a[2]
+\* Comparison.  Small operands: cross-multiplication (denominators are positive).  Large operands
+\* (voxel counts beyond 2^15, where the products would overflow TLC's 32-bit integers): comparison of
+\* the continued-fraction expansions, which needs divisions only.
+RECURSIVE LessQ(_, _, _, _)
+LessQ(a, b, c, d) ==      \* a/b < c/d  for a, c >= 0 and b, d > 0
+    LET qa == a \div b  qc == c \div d IN
+    IF qa # qc THEN qa < qc
+    ELSE LET ra == a % b  rc == c % d IN
+         IF rc = 0 THEN FALSE
+         ELSE IF ra = 0 THEN TRUE
+         ELSE LessQ(d, rc, b, ra)
+SmallPair(a, b) == Abs(a[1]) < 46000 /\ a[2] < 46000 /\ Abs(b[1]) < 46000 /\ b[2] < 46000
+Less(a, b) == IF SmallPair(a, b) THEN a[1] * b[2] < b[1] * a[2]
+              ELSE IF a[1] < 0 /\ b[1] >= 0 THEN TRUE
+              ELSE IF a[1] >= 0 /\ b[1] < 0 THEN FALSE
+              ELSE IF a[1] >= 0 THEN LessQ(a[1], a[2], b[1], b[2])
+              ELSE LessQ(-b[1], b[2], -a[1], a[2])
+Leq(a, b)  == ~Less(b, a)
+Eq(a, b)   == ~Less(a, b) /\ ~Less(b, a)
 
 Add(a, b) == LET l == Lcm(a[2], b[2]) IN
              Norm(<<a[1] * (l \div a[2]) + b[1] * (l \div b[2]), l>>)
